@@ -37,7 +37,7 @@ func init() {
 		Assumptions:  []string{"process death, not power loss: a completed write(2) survives"},
 	}, runC08)
 	register("C07", propMeta{
-		Explanation:  "Decides undo coverage and lock release on every error exit: (R1) the table step -> {log site in phase1Commit/NewBtree, guarded undo block in the live rollback, guarded undo block in the dead-transaction log replay} is extracted from the code and must be complete for every step with a persistent effect, each undo calling the matching undo function; (R2) the live-rollback guard of a step whose action performs two persistent effects must also cover the state in which only the first effect happened; (R3) rollback releases node-key locks on every path and item locks once they may have been taken; a failed node-key Lock/DualLock attempt in phase1Commit is followed by Unlock before sleeping or retrying; (R4) log removal is on every terminal path; (R6) the undos that clear whatever reservation / deletion mark / root the registry holds run only under a strict `>` guard whose truth implies the step succeeded for this transaction. (R7) a first root's blob is written before its handle is registered; (R8) what an undo function looks up in the registry is recorded there before the data it leads to is written. (R9) transactionLog.log assigns the step marker on every path, also when the backend rejects the record.",
+		Explanation:  "Decides undo coverage and lock release on every error exit: (R1) the table step -> {log site in phase1Commit/NewBtree, guarded undo block in the live rollback, guarded undo block in the dead-transaction log replay} is extracted from the code and must be complete for every step with a persistent effect, each undo calling the matching undo function; (R2) the live-rollback guard of a step whose action performs two persistent effects must also cover the state in which only the first effect happened; (R3) rollback releases node-key locks on every path and item locks once they may have been taken; a failed node-key Lock/DualLock attempt in phase1Commit is followed by Unlock before sleeping or retrying; (R4) log removal is on every terminal path; (R6) the undos that clear whatever reservation / deletion mark / root the registry holds run only under a strict `>` guard whose truth implies the step succeeded for this transaction. (R7) a first root's blob is written before its handle is registered; (R8) what an undo function looks up in the registry is recorded there before the data it leads to is written. (R9) transactionLog.log assigns the step marker on every path, also when the backend rejects the record. (R10) = C03.R8; (R11) the functions phase1Commit calls only to compute a log payload assign no tracker or transaction state; (R12) the rollback list takes an item's current id before the id is reset.",
 		DoesNotCover: "That the undo functions restore byte-identical state is not decided (C10 decides which ids they may delete); fault schedules are not executed.",
 	}, runC07)
 }
@@ -525,6 +525,8 @@ func runC07(c *Ctx) {
 	r7 := c.Rule("R7", "a first root's handle is registered only after its blob was written: the root id is published in StoreInfo.RootNodeID, so a registered handle without a blob is reachable data that does not load, and (the partial step not being undone, R2) it blocks every later creator of that root for good, whereas an orphan blob is overwritten by the retry", 1)
 	rootBlobBeforeHandleRule(c, r7)
 	failedFlipKeepsKeysRule(c, r5)
+	r12 := c.Rule("R12", "what a rollback deletes is what this transaction wrote: the rollback list takes an item's current id before the id is reset (shared with C19.R7)", 2)
+	rollbackListOrderRule(c, r12)
 	r11 := c.Rule("R11", "building a log record changes nothing: the functions phase1Commit calls only to compute the payload of logger.log(...) do not assign tracker or transaction state - the rollback of a commit that fails later calls the same getters again and must see what the first call saw", 3)
 	payloadPurityRule(c, r11)
 	r10 := c.Rule("R10", "a rollback never deletes a committed value: an actively persisted store writes updated values before the commit point under a fresh blob id, whether or not the value was read first (shared with C03.R8)", 2)
